@@ -75,7 +75,38 @@ def impl_decode(seq):
             fail = f'input {seq!r} is not one well-formed message but {m!r} was returned'
         elif msgs.canon_vals(*ref) != msgs.canon_msg(m):
             fail = f'input {seq!r} decoded to {m!r}, reference decoder says {ref!r}'
+    if fail is None:
+        fail = _again_after_caller_changed(mido, seq, m, out)
     return out, fail
+
+
+def _again_after_caller_changed(mido, seq, m, out):
+    """The message handed out belongs to the caller: what the caller does to it must not show in a later decode of the
+    same bytes (through from_bytes or from_hex)."""
+    try:
+        m.time = 5
+        if m.type == 'sysex':
+            m.data = (9, 8, 7)
+        else:
+            for name in ('velocity', 'value', 'program', 'pitch', 'pos', 'song', 'frame_value', 'control', 'note', 'channel'):
+                if name in vars(m):
+                    setattr(m, name, 0 if getattr(m, name) != 0 else 1)
+                    break
+        seq2 = list(seq) if isinstance(seq, (list, tuple, bytes, bytearray)) else None
+        if seq2 is None:
+            return None
+        m2 = mido.Message.from_bytes(seq2)
+        out2 = 'ok ' + msgs.canon_msg(m2)
+        if out2 != out or m2.time != 0 or m2 is m:
+            return (f'after the caller changed the message returned for {seq2!r}, decoding the same bytes again gives {m2!r} '
+                    f'(first time: {out[3:]}, time 0)')
+        if all(isinstance(x, int) and not isinstance(x, bool) for x in seq2):
+            m3 = mido.Message.from_hex(''.join('%02X' % x for x in seq2))
+            if 'ok ' + msgs.canon_msg(m3) != out or m3.time != 0:
+                return f'after an earlier decode of {seq2!r} was changed by its caller, from_hex of the same bytes gives {m3!r}'
+    except Exception as e:
+        return f'decoding {seq!r} a second time raised {type(e).__name__}: {e}'
+    return None
 
 
 def _impl_chunk(seqs):
